@@ -1,4 +1,5 @@
 //@@ unit READERS
+//@@ gsubst `Vec::with_capacity(` => `vec_with_capacity_bounded(` rule=R9
 //@@ gsubst `io::Error::new(io::ErrorKind::UnexpectedEof, "")` => `eof_error()` rule=R9
 //@@ gsubst `io::Error` => `IoError` rule=R11
 #![feature(allocator_api)]
@@ -36,6 +37,13 @@ pub const READ_BYTES_CHUNK: usize = 65536;
 pub fn alloc_zeroed_vec(n: usize, avail: Ghost<nat>) -> (r: Vec<u8>)
     requires n <= avail@ + READ_BYTES_CHUNK,      // [C04.alloc.bounded-by-input]
     ensures r@.len() == n,
+{ unimplemented!() }
+/// `Vec::with_capacity(n)`: reserving capacity IS an allocation. Nothing is known about the input still available where a capacity is reserved up front,
+/// so only a request within one chunk is admitted (not used by the code under contract today: present so that a change introducing it is decided)
+#[verifier::external_body]
+pub fn vec_with_capacity_bounded(n: usize) -> (r: Vec<u8>)
+    requires n <= READ_BYTES_CHUNK,      // [C04.alloc.bounded-by-input]
+    ensures r@.len() == 0,
 { unimplemented!() }
 /// `v.resize(n, 0)` with the same resource contract
 #[verifier::external_body]
